@@ -440,6 +440,11 @@ func runC15(c *Ctx) {
 	// D11 (= E9): reporting the fault never waits for a reader (Err() need not be watched): the
 	// error channel has room for the one value written, otherwise the faulty discipline neither
 	// terminates nor lets a consumer that reads Err() after the output closed ever see the fault
+	// D12 (= U8): "v2 New itself returns ErrDividerBad for such a fault at creation": no other
+	// refusal stands in front of the creation-time division for a configuration the division would
+	// have judged (HandlersQuantity < len(Inputs) refused as "too small" hides a faulty divider)
+	r.Doc("D12", "(= C18 U8) the v2 constructor refuses a configuration only for: no divider, HandlersQuantity == 0, no inputs, divider fault, zero share - a fault of the divider at creation is reported as ErrDividerBad", 4)
+	checkCtorRejections(c, c.V2, "D12")
 	r.Doc("D11", "(= E9) the error channel is made with capacity >= 1 and written at most once per goroutine", 3)
 	errChannelNonBlocking(c, c.V1, "D11")
 	errChannelNonBlocking(c, c.V2, "D11")
